@@ -212,8 +212,10 @@ pub fn generate(rng: &mut Rng, fault_free: bool, focus: &str) -> TScenario {
     let max_range = *rng.pick(&[0.0, 5.0, 50.0, 500.0, 500.0, 500.0, 2000.0, 1e9]);
     let filter_t: u64 = *rng.pick(&[0u64, 1, 1, 2, 2, 5, 5, 60, 120, 1 << 40]);
     let prune_mode = if focus == "C15" { rng.below(2) } else { rng.below(3) }; // 0 every delivery, 1 sporadic, 2 never
-    let ntx = 1 + rng.usize_below(if fault_free { 4 } else { 6 });
-    let target_frames = 16 + rng.usize_below(if focus == "C13" || focus == "C14" { 180 } else { 120 });
+    // thorough tier: a third of the runs use the deeper bounds, the rest stay short and diverse
+    let deep = simcore::deep() && rng.chance(0.33);
+    let ntx = 1 + rng.usize_below(if fault_free { 4 } else if deep { 10 } else { 6 });
+    let target_frames = 16 + rng.usize_below(if deep { 700 } else if focus == "C13" || focus == "C14" { 180 } else { 120 });
 
     // address pool (small, so re-use and near-collisions happen)
     let mut pool: Vec<[u8; 3]> = vec![[0xa0, 0x00, 0x01], [0xa0, 0x00, 0x02], [0x48, 0x40, 0xd6]];
@@ -228,7 +230,7 @@ pub fn generate(rng: &mut Rng, fault_free: bool, focus: &str) -> TScenario {
     }
 
     let per_tx_rate = 4.6; // frames per second of one transmitter, roughly
-    let duration = (target_frames as f64 / (per_tx_rate * ntx as f64)).clamp(1.5, 40.0);
+    let duration = (target_frames as f64 / (per_tx_rate * ntx as f64)).clamp(1.5, if deep { 120.0 } else { 40.0 });
     let r_eff = if (1.0..=2000.0).contains(&max_range) { max_range } else { *rng.pick(&[50.0, 300.0, 5000.0]) };
 
     let mut txs: Vec<Tx> = vec![];
@@ -403,7 +405,7 @@ pub fn generate(rng: &mut Rng, fault_free: bool, focus: &str) -> TScenario {
         }
     }
     dels.sort_by_key(|d| (d.t, d.seq));
-    dels.truncate(400);
+    dels.truncate(if deep { 1000 } else { 400 });
 
     // ---- expiry calls
     let mut events: Vec<TEv> = vec![];
@@ -566,7 +568,7 @@ impl Engine for TrackerEngine {
     fn assumptions(&self) -> Vec<String> {
         let mut v = vec![
             "the reference models consume the frame as decoded by adsb_deku (decoder correctness is C01-C11, not claimed here)".to_string(),
-            "<= 6 transmitters, <= 8 addresses, <= 400 deliveries per run".to_string(),
+            "quick tier: <= 6 transmitters, <= 8 addresses, <= 400 deliveries per run; thorough tier: <= 10 transmitters, <= 1000 deliveries".to_string(),
         ];
         match self.prop {
             "C13" => {
